@@ -35,6 +35,7 @@ BUILTIN_EXC = {
     'ssl.SSLError': 'OSError', 'zlib.error': 'Exception', 'decimal.InvalidOperation': 'ArithmeticError',
     'InvalidOperation': 'ArithmeticError', 'concurrent.futures.TimeoutError': 'Exception',
     'futures.TimeoutError': 'Exception', 'json.JSONDecodeError': 'ValueError',
+    'Warning': 'Exception', 'DeprecationWarning': 'Warning', 'UserWarning': 'Warning', 'RuntimeWarning': 'Warning',
 }
 
 
@@ -159,6 +160,8 @@ LOG_METHODS = {'debug', 'info', 'warning', 'warn', 'error', 'exception', 'critic
 def is_logging_call(node: ast.AST) -> bool:
     if not isinstance(node, ast.Call) or not isinstance(node.func, ast.Attribute):
         return False
+    if node.func.attr == 'warn' and isinstance(node.func.value, ast.Name) and node.func.value.id == 'warnings':
+        return True   # warnings.warn(...) is treated like logging (dropped by extraction)
     if node.func.attr not in LOG_METHODS:
         return False
     recv = node.func.value
@@ -243,6 +246,11 @@ class Executor:
                                             qual=f'{mod.name}:{name}'))
             if name in mod.classes:
                 return V('class', py=(mod.name, name))
+            mc = getattr(self.ctx, 'module_constants', {})
+            if f'{mod.name}:{name}' in mc:
+                self.ctx.assumptions.add(f'module constant {mod.name}:{name} == {mc[f"{mod.name}:{name}"]!r} '
+                                         f'(value computed at import time; checked natively by the [F] constants check)')
+                return const(mc[f'{mod.name}:{name}'])
             if name in mod.constants:
                 cexpr = mod.constants[name]
                 saved = self.frames
@@ -1551,10 +1559,74 @@ class Executor:
         return [(st, None)]
 
     # ------------------------------------------------------------------ calls
+    def quantified_anyall(self, node: ast.Call, st: State):
+        """any()/all() over a generator whose iterable has symbolic length -> quantified formula."""
+        is_all = node.func.id == 'all'
+        gen_node = node.args[0]
+        gen = gen_node.generators[0]
+        it_node = gen.iter
+        enum = isinstance(it_node, ast.Call) and isinstance(it_node.func, ast.Name) and it_node.func.id == 'enumerate' \
+            and len(it_node.args) == 1
+        src = it_node.args[0] if enum else it_node
+        outs = []
+        for s, it in self.ev(src, st):
+            if isinstance(it, Raise):
+                outs.append((s, it))
+                continue
+            items = models.concrete_items(self, s, it)
+            if items is not None:
+                return None
+            seq, n, elem = models.iter_seq(self, s, it)
+            if n is None:
+                raise Unsupported('any/all over unknown iterable')
+            i = fresh(IntS, 'qi')
+            body_st = s.fork()
+            body_st.assume(z3.And(i >= 0, i < n))
+            item = elem(body_st, i)
+            target_val = vtuple([vint(i), item]) if enum else item
+            saved = dict(s.locals)
+            base_len = len(body_st.pc)
+            disj = []
+            for s1, sig in self.assign(gen.target, target_val, body_st):
+                if sig is not None:
+                    raise Unsupported('exception in generator target')
+                conds = [(s1, z3.BoolVal(True))]
+                for cnode in list(gen.ifs):
+                    nxt = []
+                    for s2, acc in conds:
+                        for s3, c in self.ev_cond(cnode, s2):
+                            if isinstance(c, Raise):
+                                raise Unsupported('generator condition may raise')
+                            nxt.append((s3, z3.And(acc, c)))
+                    conds = nxt
+                for s2, guard in conds:
+                    for s3, c in self.ev_cond(gen_node.elt, s2):
+                        if isinstance(c, Raise):
+                            if self.feasible(s3):
+                                raise Unsupported('generator element may raise')
+                            continue
+                        extra = z3.And(*s3.pc[base_len:]) if len(s3.pc) > base_len else z3.BoolVal(True)
+                        if is_all:
+                            disj.append(z3.And(extra, z3.Implies(guard, c)))
+                        else:
+                            disj.append(z3.And(extra, guard, c))
+            s.locals = saved
+            body = z3.Or(*disj) if disj else z3.BoolVal(is_all)
+            rng = z3.And(i >= 0, i < n)
+            f = z3.ForAll([i], z3.Implies(rng, body)) if is_all else z3.Exists([i], z3.And(rng, body))
+            outs.append((s, vbool(f)))
+        return outs
+
     def ev_call(self, node: ast.Call, st: State):
         if is_logging_call(node):
             self.ctx.dropped.append(f'line {node.lineno}: logging call')
             return [(st, NONE)]
+        if isinstance(node.func, ast.Name) and node.func.id in ('any', 'all') and len(node.args) == 1 \
+                and isinstance(node.args[0], ast.GeneratorExp) and len(node.args[0].generators) == 1 \
+                and node.func.id not in st.locals:
+            r = self.quantified_anyall(node, st)
+            if r is not None:
+                return r
         # super().meth(...)
         f = node.func
         outs = []
